@@ -50,7 +50,7 @@ ATTR = {"none": "", "source": "#[error(source)] ", "not_source": "#[error(not(so
 
 
 def key_of(c):
-    return (("V" + {"unit": "", "ignored": "+ign", "sourced": "+src"}[c["comp"]]) if c["isVariant"] else "S") + ("n" if c["named"] else "t") + "[" + \
+    return (("V" + {"unit": "", "ignored": "+ign", "sourced": "+src", "ignored_src": "+ignsrc"}[c["comp"]]) if c["isVariant"] else "S") + ("n" if c["named"] else "t") + "[" + \
         ",".join(f'{f["attr"]}:{f["name"]}:{f["ty"]}' for f in c["l"]) + "]"
 
 
@@ -89,8 +89,10 @@ def render(c, key, src_field=None, nightly=False):
         pat = " {}" if named else "()"
     addrs = ", ".join((f"addr_dyn(&**b{i})" if f["ty"] == "box" else f"addr(b{i})") for i, f in enumerate(l))
     if c["isVariant"]:
-        comp_decl = {"unit": "Other", "ignored": "#[error(ignore)] Other(E)", "sourced": "Other { source: E }"}[c["comp"]]
-        comp_ctor = {"unit": "En::Other", "ignored": "En::Other(E(77))", "sourced": "En::Other { source: E(77) }"}[c["comp"]]
+        comp_decl = {"unit": "Other", "ignored": "#[error(ignore)] Other(E)", "sourced": "Other { source: E }",
+                     "ignored_src": "#[error(ignore)] Other(#[error(source)] E, u8)"}[c["comp"]]
+        comp_ctor = {"unit": "En::Other", "ignored": "En::Other(E(77))", "sourced": "En::Other { source: E(77) }",
+                     "ignored_src": "En::Other(E(77), 0)"}[c["comp"]]
         decl = f"#[derive(derive_more::Debug, derive_more::Error)]\npub enum En{gd} {{ V{body_fields}, {comp_decl} }}"
         ctor = f"En::V{init}"
         tyname = "En"
